@@ -50,6 +50,7 @@ class Run:
         self.faults = []
         self.clauses = []         # clause table for 'other' level
         self.solver_secs = 0.0
+        self.phase = {}
         self.nproc = int(os.environ.get('VERIF_NPROC', '16'))
         self.budget = float(os.environ.get('VERIF_VC_BUDGET', '10' if tier == 'quick' else '40'))
         self.findings = load_findings(prop)
@@ -63,6 +64,9 @@ class Run:
         self.extra_cov = {}
 
     # ------------------------------------------------------------------ proving
+    def _ph(self, name, t0):
+        self.phase[name] = round(self.phase.get(name, 0.0) + time.time() - t0, 2)
+
     def prove(self, unit, src=None, canary=False):
         from .front import Sources
         from .engine_np import FullEngine
@@ -87,6 +91,8 @@ class Run:
                     if not canary:
                         self.notes.append(traceback.format_exc()[-1500:])
         eng.finish_ids()
+        self._ph('canary-exec' if canary else 'symbolic-exec', t)
+        t = time.time()
         axioms = list(unit.axioms(L))
         pins, want = [], {}
         for key in unit.keys:
@@ -101,6 +107,8 @@ class Run:
         out = []
         for vc, r in zip(eng.vcs, res):
             out.append((unit.name + '::' + vc.oid, vc, r))
+        self._ph('canary-discharge' if canary else 'discharge', t)
+        t = time.time()
         if canary:
             return out, eng
         # vacuity guard: for every function at least one exit path must have satisfiable hypotheses
@@ -121,6 +129,9 @@ class Run:
                     self.faults.append('vacuous: no exit path of %s (unit %s) has satisfiable hypotheses' % (f, unit.name))
                 else:
                     self.notes.append('reachability of %s (unit %s) undetermined: %s' % (f, unit.name, rs))
+        self._ph('cover', t)
+        self.engines = getattr(self, 'engines', {})
+        self.engines[unit.name] = eng
         self.prims_used |= set(P.used)
         self.solver_secs += sum(r.get('secs', r.get('wall', 0)) for r in res)
         for key in unit.keys:
@@ -165,6 +176,47 @@ class Run:
             if not ok:
                 self.failed.append({'oid': full, 'unit': unit_name, 'status': 'sat', 'model': None, 'pin': None, 'tried': [(by, 'refuted', 0)],
                                     'goal': '; '.join(detail)[:600], 'note': 'static obligation refuted', 'line': None, 'error': None})
+
+    def conformance(self, script, units, per=8, args=()):
+        """recorded real executions must be models of the symbolic exit paths (pyvc/conform.py)"""
+        from . import conform
+        path = os.path.join(ROOT, 'bounded', script)
+        t = time.time()
+        keys = sorted({k for u in units for k in u.keys})
+        env_keys = ','.join(keys)
+        os.environ['VERIF_RECORD_KEYS'] = env_keys
+        try:
+            p = overlay.run_py(path, ['--tier', 'quick', '--seed', str(self.seed), '--record', str(per)] + list(args), overlay=self.ov(), timeout=600)
+        except subprocess.TimeoutExpired:
+            self.notes.append('conformance: recording timed out')
+            return
+        finally:
+            os.environ.pop('VERIF_RECORD_KEYS', None)
+        samples = None
+        for line in p.stdout.splitlines()[::-1]:
+            if line.startswith('{"samples"'):
+                samples = json.loads(line)['samples']
+                break
+        if samples is None:
+            self.faults.append('conformance: recording run of %s produced no samples: %s' % (script, (p.stderr or p.stdout)[-400:]))
+            return
+        tally = {}
+        for smp in samples:
+            for u in units:
+                if smp['key'] not in u.keys or u.name not in getattr(self, 'engines', {}):
+                    continue
+                eng = self.engines[u.name]
+                fname = smp['key'].split('::')[1]
+                verdict, detail = conform.check_sample(eng.exits, fname, smp, axioms=list(u.axioms(eng.L)))
+                if verdict == 'skipped' and 'no exit path' in detail:
+                    continue
+                tally.setdefault(u.name + '::' + fname, {}).setdefault(verdict, 0)
+                tally[u.name + '::' + fname][verdict] += 1
+                if verdict == 'excluded':
+                    self.faults.append('conformance: a real execution of %s is excluded by the symbolic semantics of unit %s (%s): %s' % (fname, u.name, detail, json.dumps(smp)[:400]))
+        self.extra_cov['conformance'] = {'recorded_executions': len(samples), 'per_function': tally,
+                                         'meaning': 'consistent = the recorded (arguments, result) satisfy the path condition of a symbolic exit path; excluded would be a checker fault'}
+        self._ph('conformance', t)
 
     def canary_check(self, unit):
         """in-memory rewrites of the real source must NOT verify (guards against an unsound engine)"""
@@ -222,11 +274,31 @@ class Run:
         """run-time contracts on the real functions over an enumerated / seeded small scope (never counted as proved)"""
         path = os.path.join(ROOT, 'bounded', script)
         t = time.time()
+        import tempfile
+        fd, prog = tempfile.mkstemp(prefix='pyvc_progress_', suffix='.json')
+        os.close(fd)
         try:
-            p = overlay.run_py(path, ['--tier', self.tier, '--seed', str(self.seed)] + list(args), overlay=self.ov(), timeout=timeout)
+            p = overlay.run_py(path, ['--tier', self.tier, '--seed', str(self.seed)] + list(args), overlay=self.ov(), timeout=timeout,
+                               env={'VERIF_PROGRESS_FILE': prog})
         except subprocess.TimeoutExpired:
             self.faults.append('bounded driver %s timed out' % script)
+            os.unlink(prog)
             return None
+        last = None
+        try:
+            last = json.load(open(prog))
+        except Exception:
+            pass
+        os.unlink(prog)
+        if p.returncode < 0 and last:
+            # the interpreter was killed by a signal while the real code ran this case: that input crashes the code under test
+            js = {'cases': last.get('n', 0), 'checked': max(0, last.get('n', 1) - 1), 'vacuous': 0, 'samples': [], 'per_function': {},
+                  'failures': [{'key': last['key'], 'clause': 'raises:interpreter-killed-by-signal-%d' % (-p.returncode),
+                                'detail': 'the real function did not return: the process died with signal %d on this input' % (-p.returncode), 'input': last['input']}],
+                  'failure_counts': {'%s raises:interpreter-killed-by-signal-%d' % (last['key'], -p.returncode): 1}}
+            js.update(label=label, bound=bound, secs=round(time.time() - t, 1), script='bounded/' + script, crashed=True)
+            self.bounded_res.append(js)
+            return js
         js = None
         for line in p.stdout.splitlines()[::-1]:
             if line.startswith('{"bounded"'):
@@ -329,7 +401,7 @@ class Run:
             'functions_under_contract': self.functions,
             'discharged_by_backend': by, 'solver_seconds': round(self.solver_secs, 2),
             'bounded': self.bounded_res, 'bounded_note': 'bounded stand-ins are run-time contracts on the real code over a stated finite scope; never counted in `discharged`',
-            'lemmas': self.lemmas, 'canaries': self.canaries,
+            'lemmas': self.lemmas, 'canaries': self.canaries, 'phase_seconds': self.phase,
             'traces_validated_against_impl': bounded_cases,
             'evaluations': max(1, n_obl + bounded_cases), 'distinct_nontrivial': max(2, n_dis + sum(b.get('distinct', b.get('checked', 0)) for b in self.bounded_res)),
             'rule': 'obligations are distinct ids generated from the current source; bounded cases are distinct inputs satisfying the contract precondition',
@@ -405,7 +477,7 @@ def resolve_failures(run, script, to_payload):
     bounded_fail = [f for b in run.bounded_res for f in b.get('failures', [])]
     handled_bounded = set()
     for f in run.failed:
-        known = run.match_finding(oid=f['oid'])
+        known = None     # listed findings are excluded from the preconditions by witness class (R.excluded()); whatever still fails is not listed
         payload = to_payload(f) if (f['status'] == 'sat' and f.get('model')) else None
         rep = run.replay(script, payload) if payload else None
         obj = {'obligation': f['oid'], 'solver_status': f['status'], 'solver_trace': f['tried'], 'model': f.get('model'),
@@ -451,7 +523,7 @@ def resolve_failures(run, script, to_payload):
         if short in reported_keys or (short, b.get('clause')) in seen_bc:
             continue          # already reported through the refuted obligation of the same function / same clause
         seen_bc.add((short, b.get('clause')))
-        known = run.match_finding(clause=b.get('clause'), oid=b.get('key', '') + '/' + b.get('clause', ''))
+        known = None     # a failing input outside every listed witness class is a new violation, whatever clause it fails
         if known:
             run.known(known, 'bounded run-time contract %s %s still fails: %s' % (b.get('key'), b.get('clause'), known.get('what', '')))
         else:
